@@ -48,6 +48,10 @@ use crate::wire::unescape;
 // texts: every declaration name embeds (document, version); `ver` filler lines shift every later range
 // ------------------------------------------------------------------------------------------------
 
+/// `G<n>` word of a case: every D/E text carries `n` further lower-case procedures (n naming warnings, a long
+/// tree walk) — makes the analyses of free-running requests long enough to overlap
+static GROW: std::sync::atomic::AtomicUsize = std::sync::atomic::AtomicUsize::new(0);
+
 pub fn text_of(doc: &str, ver: usize) -> String {
     match doc {
         "X" => "class aX\n\nproc P_X(A : Int4)\n   var x : Int4\n   var y : aD\n   x = y.\nendProc\n".to_string(),
@@ -80,6 +84,11 @@ pub fn text_of(doc: &str, ver: usize) -> String {
             l.push("proc M".into());
             l.push("endProc".into());
             l.push(String::new());
+            for i in 0..GROW.load(std::sync::atomic::Ordering::SeqCst) {
+                l.push(format!("proc w{}_{}", i, doc));
+                l.push("   var unusedLocal : Int4".into());
+                l.push("endProc".into());
+            }
             l.join("\n")
         }
     }
@@ -290,6 +299,9 @@ struct Case {
 }
 
 fn parse_case(words: &[&str]) -> Option<Case> {
+    if GROW.swap(0, std::sync::atomic::Ordering::SeqCst) != 0 {
+        *SOLO.lock().unwrap() = None;
+    }
     if words.len() < 2 || words[0] != "conc" {
         return None;
     }
@@ -319,6 +331,10 @@ fn parse_case(words: &[&str]) -> Option<Case> {
                 c.probes.push((kind.to_string(), doc.to_string()));
             }
             "X" => c.stress = Some(rest.parse().ok()?),
+            "G" => {
+                GROW.store(rest.parse().ok()?, std::sync::atomic::Ordering::SeqCst);
+                *SOLO.lock().unwrap() = None; // solo answers are per text
+            }
             _ => return None,
         }
     }
